@@ -16,7 +16,8 @@ PARTS_MIDPOINT = [{"cls": "BinaryPartition"}, {"cls": "DimensionBinaryPartition"
 
 ALGOS_ALL = ["T_HOO", "HCT", "VHCT", "POO", "GPO", "PCT", "VPCT", "DOO", "SOO", "StoSOO", "SequOOL",
              "StroquOOL", "VROOM", "Zooming"]
-REWARD_KINDS = ["const", "zero", "neg", "int", "gauss", "obj", "objneg", "late", "altsign", "fewlevels", "unit", "edge", "decay", "ramp"]
+REWARD_KINDS = ["const", "zero", "neg", "int", "gauss", "obj", "objneg", "late", "altsign", "fewlevels", "unit", "edge", "decay", "ramp",
+                "decimal"]
 
 
 def arity(part, d):
